@@ -6,6 +6,7 @@ import (
 	"crypto/sha256"
 	"encoding/json"
 	"fmt"
+	"math"
 	"runtime"
 	"sync"
 	"sync/atomic"
@@ -260,6 +261,18 @@ func (w *pworld) apply(o pop) (fs []F) {
 			fb.SetSample(i, dyn.Tok(w.t, x))
 			p.cells[i] = x
 		}
+	case "stampneg":
+		// every cell of the whole capacity holds a negative zero (floating-point types; a plain zero for
+		// the others): it compares equal to 0, and a fresh buffer does not hold it
+		fb := full(p.b)
+		z := dyn.Tok(w.t, 0)
+		if dyn.Types[w.t].Kind == dyn.Float {
+			z = dyn.F(math.Copysign(0, -1))
+		}
+		for i := range p.cells {
+			fb.SetSample(i, z)
+			p.cells[i] = 0
+		}
 	case "set":
 		idx := [...]int{0, p.n, len(p.cells) - 1}[o.A]
 		x := w.next()
@@ -322,6 +335,9 @@ func (w *pworld) ops(maxOut int) []pop {
 		}
 		if len(p.cells) > 0 {
 			r = append(r, pop{K: "stampall", H: h})
+			if dyn.Types[w.t].Kind == dyn.Float {
+				r = append(r, pop{K: "stampneg", H: h})
+			}
 			seen := map[int]bool{}
 			for a, idx := range [...]int{0, p.n, len(p.cells) - 1} {
 				if idx < len(p.cells) && !seen[idx] {
@@ -522,6 +538,7 @@ func init() {
 			// may keep across calls (a counter, a cache) is not part of the model key, so the search
 			// above cannot drive it far; these runs can.
 			var longSteps int64
+			longRounds := 0
 			longRun := func(t int, sh [3]int, variant int) {
 				cs := c10Case{T: tn(t), C: sh[0], L: sh[1], K: sh[2]}
 				w, unbind := newPWorld(cs)
@@ -539,9 +556,15 @@ func init() {
 					return true
 				}
 				uses := []string{"asample", "stampall", "set", "appendbuf", "reslice0", "resliceK", "none"}
+				if dyn.Types[t].Kind == dyn.Float {
+					uses = append(uses, "stampneg", "stampneg")
+				}
 				rounds := 300
 				if sh[0]*sh[2] > 20000 {
 					rounds = 24
+				}
+				if longRounds > 0 {
+					rounds = longRounds
 				}
 				for round := 0; round < rounds; round++ {
 					nf := w.nfree()
@@ -570,6 +593,10 @@ func init() {
 						}
 					case "set":
 						if len(p.cells) > 0 && !step(pop{K: "set", H: h, A: 2}) {
+							return
+						}
+					case "stampneg":
+						if len(p.cells) > 0 && !step(pop{K: "stampneg", H: h}) {
 							return
 						}
 					case "appendbuf":
@@ -608,6 +635,25 @@ func init() {
 					}
 				}
 			}
+			// every element type the harness knows (built-in, named, named with misleading names, same-named
+			// local types) and very wide pools (more channels than fit in 8 or 16 bits): short directed histories
+			directedFrom := longSteps
+			longRounds = 18
+			for _, ty := range dyn.Types {
+				for _, sh := range [][3]int{{2, 0, 4}, {1, 3, 5}} {
+					for variant := 0; variant < 6; variant += 5 {
+						longRun(ty.ID, sh, variant)
+					}
+				}
+			}
+			longRounds = 9
+			for _, sh := range [][3]int{{255, 1, 2}, {256, 0, 2}, {300, 1, 1}, {65535, 0, 1}, {65536, 1, 1}, {65538, 0, 2}} {
+				for _, t := range []int{dyn.Int8, dyn.Float32} {
+					longRun(t, sh, 4)
+				}
+			}
+			longRounds = 0
+			c.Set("directed_all_types_and_wide_pool_steps", longSteps-directedFrom)
 			trans += longSteps
 			c.Set("long_linear_history_steps", longSteps)
 			c.Set("states", states)
